@@ -980,7 +980,7 @@ def r1_9(ctx, rep):
             loops = [n for n in walk_local(scan.node) if isinstance(n, ast.While)]
             if loops:
                 okdef = okdef and c.dominates(c.node_of(loops[0]), c.node_of(defs[0]))
-        if not okdef and not (len(defs) == 1 and isinstance(defs[0].value, ast.ListComp)):
+        if not okdef and len(defs) == 1 and isinstance(defs[0].value, ast.Call):
             # not a comprehension at all (itertools, a helper, ...): neither recognisably right nor recognisably wrong
             rep.defer(f"R1.9: the definition of `{xname}` (`{short(defs[0].value, 60) if defs else '?'}`) is not a form the tilde model reads")
         else:
